@@ -2,6 +2,7 @@ package simrt
 
 import (
 	"fmt"
+	"runtime"
 	"runtime/debug"
 )
 
@@ -85,6 +86,14 @@ func callx(op, a, b, c, d int64, payload []byte, ctx *taskCtx, fd *feederCtx) re
 //go:norace
 func waitWake(me *taskCtx) reply {
 	semacquire(&me.sema)
+	if dumpReq { // the kernel found this task looping: hand over the stack and stay parked
+		buf := make([]byte, 1<<16)
+		hangDump = string(buf[:runtime.Stack(buf, false)])
+		semrelease(&ksema, true, 0)
+		for {
+			semacquire(&me.sema)
+		}
+	}
 	r := me.in
 	me.in = reply{}
 	r.payload = clone(r.payload)
